@@ -448,7 +448,7 @@ impl Property for P {
         "C10"
     }
     fn rule(&self) -> String {
-        "exhaustive product realising the five close conditions: (method, request version) x request Connection {absent, close, keep-alive, two fields, some other token} x Expect handshake {none, 100 received, gave up, refused bare, refused with fields} x response version x status {200, 302, 404, 307, 102, 417} x framing {length, chunked, bare, zero length} x response Connection {absent, close, keep-alive, two fields either order, some other token} x {no, one} unsolicited 100 Continue in front of the final response; every cell is a full exchange driven to Cleanup (through Redirect for 3xx), once with one-shot I/O and again under random segmentation schedules; must_close_connection()/close_reason() at Redirect and Cleanup are compared with the disjunction computed from the description. Methods: GET/HEAD/DELETE/POST/PUT/CONNECT/OPTIONS/PATCH; a third of the cells add an unrelated header through Flow::header() in Prepare. class = condition bit-vector x exit path.".into()
+        "exhaustive product realising the five close conditions: (method, request version) x request Connection {absent, close, keep-alive, two fields, some other token} x Expect handshake {none, 100 received, gave up, refused bare, refused with fields} x response version x status {200, 302, 404, 307, 102, 417} x framing {length, chunked, bare, zero length} x response Connection {absent, close, keep-alive, two fields either order, some other token} x {no, one} unsolicited 100 Continue in front of the final response; every cell is a full exchange driven to Cleanup (through Redirect for 3xx), once with one-shot I/O and again under random segmentation schedules; must_close_connection()/close_reason() at Redirect and Cleanup are compared with the disjunction computed from the description. Methods: GET/HEAD/DELETE/POST/PUT/CONNECT/OPTIONS/PATCH; a third of the cells add an unrelated header through Flow::header() in Prepare. class = condition bit-vector x exit path. after-refusal-by-redirect: the request a refusing 3xx leads to is an exchange of its own and ends reusable. opt-in-complete-heads: a complete head (CRLF or bare LF) under the opt-in closes only if a condition holds. A quarter of the cells put an empty-valued field in front of the Connection fields.".into()
     }
     fn assumptions(&self) -> Vec<String> {
         vec![
